@@ -206,7 +206,7 @@ func (x *Exec) verify() (err error) {
 	}()
 	fn := x.fn
 	st := &State{x: x, heaps: map[string]*heapNode{}, instd: map[string]bool{}, closures: map[string]*closureInfo{},
-		held: map[string]bool{}, ghostInt: map[string]Term{}}
+		held: map[string]bool{}, heldW: map[string]bool{}, ghostInt: map[string]Term{}}
 	x.d.Declare("alloc_0", "Int")
 	st.alloc = "alloc_0"
 	x.allocEntry = "alloc_0"
@@ -229,7 +229,11 @@ func (x *Exec) verify() (err error) {
 					continue
 				}
 				r := fr.regs[p].L[i]
-				st.assume(tOr(tIsNil(r), "(>= "+tRid(r)+" 10000)"))
+				if l.Kind == LkPayload {
+					st.assume(tOr(tIsNil(r), "(>= "+tRid(r)+" 10000)", tEq(tRid(r), strBoxRid)))
+				} else {
+					st.assume(tOr(tIsNil(r), "(>= "+tRid(r)+" 10000)"))
+				}
 			}
 		}
 	}
@@ -444,7 +448,30 @@ func (x *Exec) loopEnv(st *State, fr *Frame, li *loopInfo) *Env {
 			vars[phi.Comment] = v
 		}
 	}
-	return &Env{x: x, st: st, old: x.entry, vars: vars, loopSnap: st.loopSnaps[li.head]}
+	return &Env{x: x, st: st, old: x.entry, vars: vars, loopSnap: st.loopSnaps[li.head], iterSnap: st.iterSnaps[li.head]}
+}
+
+// checkSteps: obligations about one complete iteration, at the back edge.
+func (x *Exec) checkSteps(st *State, fr *Frame, li *loopInfo) {
+	ls := x.loopSpec(fr.fn, li)
+	if len(ls.Steps) == 0 {
+		return
+	}
+	env := x.loopEnv(st, fr, li)
+	// phis still hold the values of the iteration that just ran
+	for k, c := range ls.Steps {
+		env.what = fmt.Sprintf("%s loop %d step (%s:%d)", x.prog.relName(fr.fn), li.ordinal, shortFile(c.File), c.Line)
+		parts := x.splitConj(c.Expr, 0)
+		for j, pe := range parts {
+			d := fmt.Sprint(k)
+			desc := c.Text
+			if len(parts) > 1 {
+				d = fmt.Sprintf("%d.%d", k, j)
+				desc += "  [conjunct: " + exprString(pe) + "]"
+			}
+			x.oblige(st, "step"+fmt.Sprint(li.ordinal), d, env.evalBool(pe), x.propsFor(c), desc, token.NoPos)
+		}
+	}
 }
 
 func (x *Exec) checkInvariants(st *State, fr *Frame, li *loopInfo, phase string) {
@@ -536,6 +563,39 @@ func (x *Exec) havocLoop(st *State, fr *Frame, li *loopInfo) {
 			}
 		}
 	}
+	// function-local cells that the loop can only read (and whose address does
+	// not escape except into deferred closures) keep their content
+	var stable []Term
+	for v, rv := range fr.regs {
+		a, ok := v.(*ssa.Alloc)
+		if !ok || a.Parent() != fr.fn || li.body[a.Block()] {
+			continue
+		}
+		okUse := true
+		for _, ref := range *a.Referrers() {
+			switch r := ref.(type) {
+			case *ssa.UnOp, *ssa.DebugRef:
+			case *ssa.Store:
+				if r.Addr != ssa.Value(a) || li.body[r.Block()] {
+					okUse = false
+				}
+			case *ssa.MakeClosure:
+				for _, cr := range *r.Referrers() {
+					if _, isDefer := cr.(*ssa.Defer); !isDefer {
+						if _, isDbg := cr.(*ssa.DebugRef); !isDbg {
+							okUse = false
+						}
+					}
+				}
+			default:
+				okUse = false
+			}
+		}
+		if okUse {
+			stable = append(stable, tRid(rv.L[0]))
+		}
+	}
+	sort.Strings(stable)
 	allocHead := st.alloc
 	var loopMods []Term
 	if len(ls.Modifies) > 0 {
@@ -550,9 +610,15 @@ func (x *Exec) havocLoop(st *State, fr *Frame, li *loopInfo) {
 	modAll := x.modAll
 	keepFor := func(sort string) func(Term) Term {
 		return func(a Term) Term {
-			if all {
-				return "false"
+			var stab []Term
+			for _, r := range stable {
+				stab = append(stab, tEq(tOrid(a), r))
 			}
+			if all {
+				return tOr(stab...)
+			}
+			keepOld := func(c Term) Term { return tOr(append([]Term{c}, stab...)...) }
+			_ = keepOld
 			cs := []Term{"(<= " + tOrid(a) + " " + allocHead + ")"}
 			for _, r := range localRoots {
 				cs = append(cs, tNot(tEq(tOrid(a), r)))
@@ -566,7 +632,7 @@ func (x *Exec) havocLoop(st *State, fr *Frame, li *loopInfo) {
 				}
 			} else if nonlocal {
 				if modAll {
-					return "false"
+					return tOr(stab...)
 				}
 				cs = append(cs, "(<= "+tOrid(a)+" "+allocEntry+")")
 				for _, m := range entryMods {
@@ -576,7 +642,7 @@ func (x *Exec) havocLoop(st *State, fr *Frame, li *loopInfo) {
 					}
 				}
 			}
-			return tAnd(cs...)
+			return tOr(append([]Term{tAnd(cs...)}, stab...)...)
 		}
 	}
 	if all || nonlocal || len(localRoots) > 0 {
@@ -633,6 +699,7 @@ func (x *Exec) enterBlock(st *State, b *ssa.BasicBlock, pred *ssa.BasicBlock) {
 	}
 	if li, ok := x.loops[b]; ok && b.Parent() == fr.fn {
 		if pred != nil && b.Dominates(pred) {
+			x.checkSteps(st, fr, li)
 			x.checkInvariants(st, fr, li, "preserve")
 			x.paths++
 			return
@@ -643,6 +710,16 @@ func (x *Exec) enterBlock(st *State, b *ssa.BasicBlock, pred *ssa.BasicBlock) {
 		st.loopSnaps[b] = st.snap()
 		x.checkInvariants(st, fr, li, "establish")
 		x.havocLoop(st, fr, li)
+		// per-iteration ghost counters (sends per stream, monitor writes) start at zero
+		for k := range st.ghostInt {
+			if strings.HasPrefix(k, "sent:") || strings.HasPrefix(k, "writes:") || strings.HasPrefix(k, "rtrue:") {
+				st.ghostInt[k] = "0"
+			}
+		}
+		if st.iterSnaps == nil {
+			st.iterSnaps = map[*ssa.BasicBlock]*snapshot{}
+		}
+		st.iterSnaps[b] = st.snap()
 	}
 	x.runFrom(st, b, 0)
 }
@@ -878,7 +955,12 @@ func (x *Exec) step(st *State, b *ssa.BasicBlock, idx int, in ssa.Instruction) b
 	case *ssa.MakeChan:
 		obj := st.newObject()
 		st.storeLeaf("Bool", extendGhost(obj, 0), "false") // closed flag (ghost index 0 is reserved for it)
+		x.d.DeclareFun("roottype", []string{"Int"}, "Int")
+		if ct, ok := in.Type().Underlying().(*types.Chan); ok {
+			st.assume(fmt.Sprintf("(= (roottype %s) %d)", tRid(obj), 100000+x.prog.typeID(types.NewChan(types.SendRecv, ct.Elem()))))
+		}
 		x.setReg(st, in, Val{T: in.Type(), L: []Term{obj}})
+		x.ghostInit(st, in)
 	case *ssa.MakeClosure:
 		obj := st.newObject()
 		ci := &closureInfo{fn: in.Fn.(*ssa.Function)}
@@ -887,12 +969,14 @@ func (x *Exec) step(st *State, b *ssa.BasicBlock, idx int, in ssa.Instruction) b
 		}
 		st.closures[obj] = ci
 		x.setReg(st, in, Val{T: in.Type(), L: []Term{obj}})
+		x.onRef(st, ci.fn, in.Pos())
 	case *ssa.MapUpdate:
 		m := x.value(st, in.Map)
 		k := x.value(st, in.Key)
 		v := x.value(st, in.Value)
 		x.oblige(st, "nilmap", describe(in.Map), tNot(tIsNil(m.L[0])), x.spec.Props, "assignment to entry in nil map", in.Pos())
 		st.assume(tNot(tIsNil(m.L[0])))
+		x.monitorAccess(st, in.Map, true, &k, &v, "true", in.Pos())
 		x.mapUpdate(st, m, k, v, describe(in.Map), in.Pos())
 	case *ssa.Lookup:
 		x.lookup(st, in)
@@ -1089,6 +1173,9 @@ func (x *Exec) makeInterface(st *State, v Val, from types.Type, to types.Type) V
 	if isPointerLike(from) {
 		return Val{T: to, L: []Term{tag, v.L[0]}}
 	}
+	if isStringKinded(from) {
+		return Val{T: to, L: []Term{tag, boxString(v.L[0])}}
+	}
 	// box the value
 	box := st.newObject()
 	st.storeVal(box, Val{T: from, L: v.L})
@@ -1204,6 +1291,7 @@ func (x *Exec) lookup(st *State, in *ssa.Lookup) {
 	x.lockCheck(st, m.L[0], mt, describe(in.X), in.Pos(), false)
 	okT, v := st.mapLookupIn(nil, m, k)
 	st.assumeWF(v)
+	x.monitorAccess(st, in.X, false, &k, &v, okT, in.Pos())
 	if u, ok := in.X.(*ssa.UnOp); ok {
 		if g, ok := u.X.(*ssa.Global); ok {
 			if inv := x.prog.spec.MapInvs[g.Name()]; inv != nil {
@@ -1261,6 +1349,8 @@ func (x *Exec) typeAssert(st *State, in *ssa.TypeAssert) {
 		ok = tEq(v.L[0], tInt(int64(x.prog.typeID(at))))
 		if isPointerLike(at) {
 			res = Val{T: at, L: []Term{v.L[1]}}
+		} else if isStringKinded(at) {
+			res = Val{T: at, L: []Term{unboxString(v.L[1])}}
 		} else {
 			res = st.loadVal(v.L[1], at)
 		}
@@ -1313,6 +1403,22 @@ func (x *Exec) checkPost(st *State, res Val, pos token.Pos) {
 		}
 		for j, pe := range parts {
 			x.oblige(st, "post", fmt.Sprintf("%s.%d", d, j), env.evalBool(pe), x.propsFor(c), c.Text+"  [conjunct: "+exprString(pe)+"]", pos)
+		}
+	}
+	for k, c := range x.spec.Checks {
+		env.what = fmt.Sprintf("%s checks (%s:%d)", x.fname, shortFile(c.File), c.Line)
+		d := fmt.Sprint(k)
+		if c.Label != "" {
+			d = c.Label
+		}
+		parts := x.splitConj(c.Expr, 0)
+		for j, pe := range parts {
+			dd, desc := d, c.Text
+			if len(parts) > 1 {
+				dd = fmt.Sprintf("%s.%d", d, j)
+				desc += "  [conjunct: " + exprString(pe) + "]"
+			}
+			x.oblige(st, "check", dd, env.evalBool(pe), x.propsFor(c), desc, pos)
 		}
 	}
 	if len(st.held) > 0 {
@@ -1495,4 +1601,58 @@ func (x *Exec) zeroGhosts(st *State, addr Term, t types.Type, depth int) {
 			}
 		}
 	}
+}
+
+
+// ghostInit: assumptions about uninterpreted attributes of a freshly allocated
+// local object, named by its source variable (e.g. the key of a reply channel).
+func (x *Exec) ghostInit(st *State, in ssa.Instruction) {
+	fr := st.top()
+	fs := x.prog.spec.Funcs[x.prog.relName(fr.fn)]
+	if fs == nil || len(fs.GhostInit) == 0 {
+		return
+	}
+	v, ok := in.(ssa.Value)
+	if !ok {
+		return
+	}
+	// the DebugRef naming the variable follows the allocation; look it up by value
+	name := x.localNameOf(fr.fn, v)
+	if name == "" {
+		return
+	}
+	cs := fs.GhostInit[name]
+	if len(cs) == 0 {
+		return
+	}
+	vars := x.scopeVars(st, fr)
+	vars[name] = fr.regs[v]
+	env := &Env{x: x, st: st, old: x.entry, vars: vars, what: x.prog.relName(fr.fn) + " ghostinit " + name}
+	for _, c := range cs {
+		st.assume(env.evalBool(c.Expr))
+	}
+}
+
+// onRef: obligations at the place where a function value of a given function is created.
+func (x *Exec) onRef(st *State, fn *ssa.Function, pos token.Pos) {
+	fr := st.top()
+	fs := x.prog.spec.Funcs[x.prog.relName(fr.fn)]
+	if fs == nil || len(fs.OnRef) == 0 {
+		return
+	}
+	base := baseFuncName(x.prog, fn)
+	for k, c := range fs.OnRef[base] {
+		env := &Env{x: x, st: st, old: x.entry, vars: x.scopeVars(st, fr), what: x.prog.relName(fr.fn) + " onref " + base}
+		props := x.spec.Props
+		if len(c.Props) > 0 {
+			props = c.Props
+		}
+		x.oblige(st, "onref", fmt.Sprintf("%s:%d", base, k), env.evalBool(c.Expr), props, "where "+base+" is referenced: "+c.Text, pos)
+	}
+}
+
+
+func isStringKinded(t types.Type) bool {
+	b, ok := t.Underlying().(*types.Basic)
+	return ok && b.Info()&types.IsString != 0
 }
